@@ -152,3 +152,17 @@ Definition block_comment (c : list N) : Prop :=
   exists body, no_close body /\ c = [47; 42] ++ body ++ [42; 47].
 Definition line_comment (c : list N) : Prop :=
   exists body, no_newline body /\ c = [47; 47] ++ body.
+
+(* "the end of l lies outside every comment": l is made of complete comments
+   (a line comment with the newline that ends it, a block comment with its
+   first closer), each preceded by comment-free code, followed by comment-free
+   code that does not end in a slash.  A `/*` that follows such a prefix is a
+   comment opener; a `/*` after any other prefix is comment text (or, after a
+   pending slash, the `/` of `//` followed by a star).  Declarative: the
+   automaton is not mentioned. *)
+Inductive ends_in_code : list N -> Prop :=
+| eic_code : forall a, plain_code a -> ends_in_code a
+| eic_line : forall a c b, plain_code a -> no_newline c -> ends_in_code b ->
+    ends_in_code (a ++ [47; 47] ++ c ++ [10] ++ b)
+| eic_block : forall a c b, plain_code a -> no_close c -> ends_in_code b ->
+    ends_in_code (a ++ [47; 42] ++ c ++ [42; 47] ++ b).
